@@ -8,3 +8,8 @@ import TvCore.Props.C12
 #print axioms TV.C12.accepted_was_waiting
 #print axioms TV.C12.eraseIdx_removes_key
 #print axioms TV.C12.closed_both_gone
+#print axioms TV.C12.dropSyn_dropped
+#print axioms TV.C12.partitioned_send_dropped
+#print axioms TV.C12.unroutable_send_refused
+#print axioms TV.C12.connect_refused_of_dropped
+#print axioms TV.C12.connect_pending_of_pending
